@@ -13,6 +13,14 @@
   failure and drops BEFORE the mapping runs.  `map_sim_at` is the pointwise form (a fuelled parser simulates only where
   the fuel suffices); `point_sim`: `pars.Parser(pars.Int).Map(…)` of location.go is `LocParse.point`.
   `pars.Seq`, `Many`, `Exact`, `Until(parser)`, `Quoted` stay with the facts (`pars_<Function>`).
+
+  CORRECTED (audit S5).  `SimP` asks for agreement from EVERY `Inv` state; every fuelled primitive (`parsInt env fuel`, `parsSpaces`,
+  `parsWord`, `parsLine`, `parsUntil*`) simulates its model parser only where fewer bytes than the fuel are left, so `SimP` is FALSE
+  for every parser that contains one (`int_not_simP`) and `map_sim`, `dry_sim`, `maybe_sim`, `any_sim` — true as stated — reach
+  loop-free inner parsers only, NOT "every location / modifier / locator parser".  The section "bounded simulation" has the forms
+  that do: `SimPUpTo L` (every `Inv` state whose abstraction meets `Pars.Fr L [] 0`: position and every saved position within `L`,
+  sorted), `map_simUpTo`, `dry_simUpTo`, `maybe_simUpTo`, `any_simUpTo`, the primitives' `int_simUpTo` / `tokens_simUpTo` /
+  `byte_simUpTo` for `L < fuel`, and `any_int_point_simUpTo`: the shape of `ParseLocation` with an `Int`-based alternative.
 -/
 import Gts.Bridge.ParsPrim
 import Gts.Lemmas.Fuel
@@ -227,6 +235,267 @@ theorem any_sim {α : Type} (env : Env ρ ε) (pend : ρ → Option ε → Bytes
   rw [← habs1]
   simpa [parsAny, hpu] using this
 
+/-! ### bounded simulation (audit S5)
+
+`SimP` asks for agreement from EVERY state that meets `Inv`.  No parser that contains a fuelled primitive (`parsInt env fuel`,
+`parsSpaces`, `parsWord`, `parsLine`, `parsUntil*`) has it: for every fuel there is a longer input, on which the generated loop is
+left "as if its condition were false" (`int_not_simP` below).  So `map_sim`, `dry_sim`, `maybe_sim`, `any_sim` above — true as
+stated — apply to loop-free inner parsers only (`pars.Any(" bp", " aa")`, `pars.Dry(pars.EOL)`).  `SimPUpTo L` is the form the
+fuelled primitives DO have for `L < fuel`: agreement from every `Inv` state whose abstraction meets `Fr L [] 0` — the position
+and EVERY saved position have at most `L` bytes left (an inner parser may `Pop` back to a saved position), and the saved
+positions are sorted: the invariant of the never-panic proofs (Gts/Lemmas/ParsSafe.lean).  The combinators keep it: `Map`, `Dry`,
+`Maybe` run their parser once, behind a `Push` (which keeps `Fr L [] 0`); `Any` runs each alternative from where the previous
+one left the state, so its alternatives are asked to be `Safe` on the model side (every model parser of gts is:
+`Pars.int_safe`, `byte_safe`, `anyOf_safe`, `mapP_safe`, …), which carries `Fr L [] 0` from one alternative to the next. -/
+
+/-- the Go parser `p` simulates the model parser `m` from every state that meets `Inv` and whose abstraction has at most `L`
+bytes left at the position and at every saved position, saved positions sorted (`Pars.Fr L [] 0`) -/
+def SimPUpTo {α : Type} (L : Nat) (pend : ρ → Option ε → Bytes) (val : α → ResultV → Prop) (p : GoParser ρ ε)
+    (m : Pars.P α) : Prop :=
+  ∀ (g : State ρ ε) (res : ResultV), Inv g → Pars.Fr L [] 0 (absState pend g) →
+    Agree pend val (p g res) (m.run' (absState pend g))
+
+/-- the unbounded form gives every bounded one -/
+theorem SimP.upTo {α : Type} {pend : ρ → Option ε → Bytes} {val : α → ResultV → Prop} {p : GoParser ρ ε} {m : Pars.P α}
+    (h : SimP pend val p m) (L : Nat) : SimPUpTo L pend val p m := fun g res hi _ => h g res hi
+
+/-- `Push` keeps the bound -/
+theorem fr_push {L : Nat} {s : PS} (h : Pars.Fr L [] 0 s) : Pars.Fr L [] 0 ⟨s.rest, s.rest :: s.stk⟩ := by
+  have : Pars.WP Pars.push (fun _ s' => Pars.Fr L [] 0 s') s := Pars.wp_push h (fun _ h' => h'.weaken)
+  exact this
+
+/-- a `Safe` model parser keeps the bound -/
+theorem fr_keeps {α : Type} {m : Pars.P α} (hm : Pars.Safe m) {L : Nat} {s : PS} (h : Pars.Fr L [] 0 s) :
+    Pars.Fr L [] 0 (m.run' s).2 := (hm L [] 0 s h).2
+
+/-- `Parser.Map(f)` = `ModParse.mapP` at one state, for a parser that simulates FROM THE STATE `Push` LEAVES (`map_sim_at` asks for
+every state with the same position) -/
+theorem map_sim_pushed {α β : Type} (pend : ρ → Option ε → Bytes) (val : α → ResultV → Prop) (val' : β → ResultV → Prop)
+    (p : GoParser ρ ε) (m : Pars.P α) (g : State ρ ε) (res : ResultV) (h : Inv g)
+    (hp : ∀ g1, Inv g1 →
+      absState pend g1 = ⟨(absState pend g).rest, (absState pend g).rest :: (absState pend g).stk⟩ →
+      Agree pend val (p g1 res) (m.run' (absState pend g1)))
+    (f : ResultV → ResultV × Option ε) (fn : α → β) (hf : ∀ a r, val a r → (f r).2 = none ∧ val' (fn a) (f r).1) :
+    Agree pend val' (parsMap p f g res) ((ModParse.mapP m fn).run' (absState pend g)) := by
+  obtain ⟨g1, hpu, hinv1, habs1, _⟩ := statePush_spec pend g h
+  have h1 := hp g1 hinv1 habs1
+  unfold ModParse.mapP
+  rw [Pars.run_bind, Pars.run_push]; dsimp only
+  rw [Pars.run_bind, Pars.run_attempt, ← habs1]
+  generalize m.run' (absState pend g1) = r at h1
+  obtain ⟨o, s'⟩ := r
+  cases o with
+  | ok a =>
+    obtain ⟨g2, res2, hp2, hv, hinv2, habs2⟩ := h1
+    obtain ⟨g3, hd, hinv3, habs3⟩ := drop_sim pend g2 hinv2
+    dsimp only
+    rw [Pars.run_bind, ← habs2, habs3]
+    obtain ⟨hf1, hf2⟩ := hf a res2 hv
+    refine ⟨g3, (f res2).1, ?_, hf2, hinv3, rfl⟩
+    simp [parsMap, hpu, hp2, hd, hf1]
+  | error e =>
+    cases e with
+    | fail =>
+      obtain ⟨g2, res2, e2, hp2, hinv2, habs2⟩ := h1
+      obtain ⟨g3, hpo, hinv3, habs3⟩ := pop_sim pend g2 hinv2
+      dsimp only
+      rw [Pars.run_bind, ← habs2, habs3]
+      exact ⟨g3, res2, e2, by simp [parsMap, hpu, hp2, hpo], hinv3, rfl⟩
+    | panic =>
+      have : p g1 res = none := h1
+      show parsMap p f g res = none
+      simp [parsMap, hpu, this]
+
+/-- `Parser.Map(f)` = `ModParse.mapP`, BOUNDED: for a parser that simulates a model parser up to `L` (e.g. `parsInt env fuel`,
+`L < fuel`).  What changed against `map_sim`: the hypothesis and the conclusion are `SimPUpTo L` instead of `SimP` — `SimP` is
+false for every fuelled primitive, `SimPUpTo L` is what `int_sim` … give. -/
+theorem map_simUpTo {α β : Type} (L : Nat) (pend : ρ → Option ε → Bytes) (val : α → ResultV → Prop)
+    (val' : β → ResultV → Prop) (p : GoParser ρ ε) (m : Pars.P α) (hp : SimPUpTo L pend val p m)
+    (f : ResultV → ResultV × Option ε) (fn : α → β) (hf : ∀ a r, val a r → (f r).2 = none ∧ val' (fn a) (f r).1) :
+    SimPUpTo L pend val' (parsMap p f) (ModParse.mapP m fn) :=
+  fun g res h hb => map_sim_pushed pend val val' p m g res h
+    (fun g1 h1 ha => hp g1 res h1 (by rw [ha]; exact fr_push hb)) f fn hf
+
+/-- `pars.Dry(q)` = `dryP`, BOUNDED (what changed against `dry_sim`: `SimPUpTo L` for `SimP`, on both sides) -/
+theorem dry_simUpTo {α : Type} (L : Nat) (pend : ρ → Option ε → Bytes) (val : α → ResultV → Prop)
+    (p : GoParser ρ ε) (m : Pars.P α) (hp : SimPUpTo L pend val p m) : SimPUpTo L pend val (parsDry p) (dryP m) := by
+  intro g res h hb
+  obtain ⟨g1, hpu, hinv1, habs1, _⟩ := statePush_spec pend g h
+  have h1 := hp g1 res hinv1 (by rw [habs1]; exact fr_push hb)
+  unfold dryP
+  rw [Pars.run_bind, Pars.run_push]; dsimp only
+  rw [Pars.run_bind, Pars.run_attempt, ← habs1]
+  generalize m.run' (absState pend g1) = r at h1
+  obtain ⟨o, s'⟩ := r
+  cases o with
+  | ok a =>
+    obtain ⟨g2, res2, hp2, hv, hinv2, habs2⟩ := h1
+    obtain ⟨g3, hpo, hinv3, habs3⟩ := pop_sim pend g2 hinv2
+    dsimp only
+    rw [Pars.run_bind, ← habs2, habs3]
+    exact ⟨g3, res2, by simp [parsDry, hpu, hp2, hpo], hv, hinv3, rfl⟩
+  | error e =>
+    cases e with
+    | fail =>
+      obtain ⟨g2, res2, e2, hp2, hinv2, habs2⟩ := h1
+      obtain ⟨g3, hpo, hinv3, habs3⟩ := pop_sim pend g2 hinv2
+      dsimp only
+      rw [Pars.run_bind, ← habs2, habs3]
+      exact ⟨g3, res2, e2, by simp [parsDry, hpu, hp2, hpo], hinv3, rfl⟩
+    | panic =>
+      have : p g1 res = none := h1
+      show parsDry p g res = none
+      simp [parsDry, hpu, this]
+
+/-- `pars.Maybe(q)` = `maybeP`, BOUNDED (what changed against `maybe_sim`: `SimPUpTo L` for `SimP`, on both sides) -/
+theorem maybe_simUpTo {α : Type} (L : Nat) (env : Env ρ ε) (pend : ρ → Option ε → Bytes) (val : α → ResultV → Prop)
+    (p : GoParser ρ ε) (m : Pars.P α) (hp : SimPUpTo L pend val p m) :
+    SimPUpTo L pend (fun o r => ∀ a, o = some a → val a r) (parsMaybe env p) (maybeP m) := by
+  intro g res h hb
+  obtain ⟨g1, hpu, hinv1, habs1, _⟩ := statePush_spec pend g h
+  have h1 := hp g1 res hinv1 (by rw [habs1]; exact fr_push hb)
+  unfold maybeP
+  rw [Pars.run_bind, Pars.run_push]; dsimp only
+  rw [Pars.run_bind, Pars.run_attempt, ← habs1]
+  generalize m.run' (absState pend g1) = r at h1
+  obtain ⟨o, s'⟩ := r
+  cases o with
+  | ok a =>
+    obtain ⟨g2, res2, hp2, hv, hinv2, habs2⟩ := h1
+    obtain ⟨g3, hd, hinv3, habs3⟩ := drop_sim pend g2 hinv2
+    dsimp only
+    rw [Pars.run_bind, ← habs2, habs3]
+    exact ⟨g3, res2, by simp [parsMaybe, hpu, hp2, hd], by intro b hb; cases hb; exact hv, hinv3, rfl⟩
+  | error e =>
+    cases e with
+    | fail =>
+      obtain ⟨g2, res2, e2, hp2, hinv2, habs2⟩ := h1
+      have hpushed := statePushed_eq pend g2 hinv2
+      rw [habs2] at hpushed
+      dsimp only
+      rw [Pars.run_bind, Pars.run_pushed]; dsimp only
+      cases hemp : s'.stk.isEmpty with
+      | true =>
+        rw [hemp] at hpushed
+        simp only [Bool.not_true, Bool.not_false, if_true, Pars.run_bind, Pars.run_fail]
+        exact ⟨g2, res2, env.mkErr, by simp [parsMaybe, hpu, hp2, hpushed], hinv2, habs2⟩
+      | false =>
+        rw [hemp] at hpushed
+        obtain ⟨g3, hpo, hinv3, habs3⟩ := pop_sim pend g2 hinv2
+        simp only [Bool.not_false, Bool.not_true, Bool.false_eq_true, if_false, Pars.run_bind, Pars.run_pure]
+        rw [← habs2, habs3]
+        exact ⟨g3, res2, by simp [parsMaybe, hpu, hp2, hpushed, hpo], (show ∀ a : α, (none : Option α) = some a → val a res2 from fun b hb => nomatch hb), hinv3, rfl⟩
+    | panic =>
+      have : p g1 res = none := h1
+      show parsMaybe env p g res = none
+      simp [parsMaybe, hpu, this]
+
+/-- the loop of `pars.Any`, BOUNDED: every alternative simulates up to `L` and its model parser is `Safe`, which carries the
+bound to the state the next alternative starts from -/
+theorem any_loopUpTo {α : Type} (L : Nat) (env : Env ρ ε) (pend : ρ → Option ε → Bytes) (val : α → ResultV → Prop)
+    (all : List (GoParser ρ ε)) :
+    ∀ (ps : List (GoParser ρ ε)) (ms : List (Pars.P α)),
+      Pars.All2 (fun p m => SimPUpTo L pend val p m ∧ Pars.Safe m) ps ms →
+      ∀ (g : State ρ ε) (res : ResultV) (err : Option ε), Inv g → Pars.Fr L [] 0 (absState pend g) →
+        Agree pend val (rangeLoop (parsAny_body1 env all) (parsAny_exit1 env all) ps (g, res, err))
+          ((LocParse.anyOf.go ms).run' (absState pend g))
+  | [], [], _ => by
+    intro g res err h _
+    obtain ⟨g1, hpo, hinv1, habs1⟩ := pop_sim pend g h
+    rw [LocParse.anyOf.go, Pars.run_bind, habs1]
+    exact ⟨g1, res, env.mkErr, by simp [rangeLoop, parsAny_exit1, hpo], hinv1, rfl⟩
+  | p :: ps, m :: ms, .cons hpm hrest => by
+    intro g res err h hb
+    have h1 := hpm.1 g res h hb
+    have hk := fr_keeps hpm.2 hb
+    rw [Pars.run_go_cons]
+    generalize m.run' (absState pend g) = r at h1 hk
+    obtain ⟨o, s'⟩ := r
+    cases o with
+    | ok a =>
+      obtain ⟨g2, res2, hp2, hv, hinv2, habs2⟩ := h1
+      obtain ⟨g3, hd, hinv3, habs3⟩ := stateDrop_spec pend g2 hinv2
+      exact ⟨g3, res2, by simp [rangeLoop, parsAny_body1, hp2, hd], hv, hinv3, by rw [habs3, habs2]⟩
+    | error e =>
+      cases e with
+      | fail =>
+        obtain ⟨g2, res2, e2, hp2, hinv2, habs2⟩ := h1
+        have hpushed := statePushed_eq pend g2 hinv2
+        rw [habs2] at hpushed
+        dsimp only
+        cases hemp : s'.stk.isEmpty with
+        | true =>
+          rw [hemp] at hpushed
+          simp only [if_true]
+          exact ⟨g2, res2, env.mkErr, by simp [rangeLoop, parsAny_body1, hp2, hpushed], hinv2, habs2⟩
+        | false =>
+          rw [hemp] at hpushed
+          simp only [Bool.false_eq_true, if_false]
+          have ih := any_loopUpTo L env pend val all ps ms hrest g2 res2 (some e2) hinv2 (by rw [habs2]; exact hk)
+          rw [habs2] at ih
+          have hstep : rangeLoop (parsAny_body1 env all) (parsAny_exit1 env all) (p :: ps) (g, res, err) =
+              rangeLoop (parsAny_body1 env all) (parsAny_exit1 env all) ps (g2, res2, some e2) := by
+            simp [rangeLoop, parsAny_body1, hp2, hpushed]
+          rw [hstep]
+          exact ih
+      | panic =>
+        have : p g res = none := h1
+        show rangeLoop _ _ (p :: ps) (g, res, err) = none
+        simp [rangeLoop, parsAny_body1, this]
+
+/-- `pars.Any(q…)` = `LocParse.anyOf`, BOUNDED: for every list of parsers that simulate model parsers up to `L`, one by one, the
+model parsers `Safe`.  What changed against `any_sim`: `SimPUpTo L` for `SimP` on both sides (so alternatives built on `pars.Int`,
+`Spaces`, `Word`, `Line`, `Until` qualify for `L < fuel`), and the added hypothesis `Safe` on the model alternatives — needed because
+alternative `k+1` starts where alternative `k` left the state, and the bound must still hold there. -/
+theorem any_simUpTo {α : Type} (L : Nat) (env : Env ρ ε) (pend : ρ → Option ε → Bytes) (val : α → ResultV → Prop)
+    (ps : List (GoParser ρ ε)) (ms : List (Pars.P α))
+    (h2 : Pars.All2 (fun p m => SimPUpTo L pend val p m ∧ Pars.Safe m) ps ms) :
+    SimPUpTo L pend val (parsAny env ps) (LocParse.anyOf ms) := by
+  intro g res h hb
+  obtain ⟨g1, hpu, hinv1, habs1, _⟩ := statePush_spec pend g h
+  have := any_loopUpTo L env pend val ps ps ms h2 g1 res none hinv1 (by rw [habs1]; exact fr_push hb)
+  unfold LocParse.anyOf
+  rw [Pars.run_bind, Pars.run_push]; dsimp only
+  rw [← habs1]
+  simpa [parsAny, hpu] using this
+
+/-- THE PRIMITIVES GIVE `SimPUpTo`: `pars.Int` with more loop fuel than the bound -/
+theorem int_simUpTo (L : Nat) (env : Env ρ ε) (pend : ρ → Option ε → Bytes) (hf : FillOk env pend) (he : EnvOk env)
+    (fuel : Nat) (hfu : L < fuel) : SimPUpTo L pend (fun n r => r = ResultV.int n) (parsInt env fuel) Pars.int :=
+  fun g res h hb => int_sim env pend hf he g h fuel (Nat.lt_of_le_of_lt hb.le hfu) res
+
+/-- … `pars.Spaces`, `pars.Word(f)`, `pars.Line`, `pars.Until(filter)`, `pars.Until(byte)` likewise -/
+theorem tokens_simUpTo (L : Nat) (env : Env ρ ε) (pend : ρ → Option ε → Bytes) (hf : FillOk env pend) (he : EnvOk env)
+    (fuel : Nat) (hfu : L < fuel) (f : UInt8 → Bool) (e : UInt8) :
+    SimPUpTo L pend (fun p r => r = ResultV.token p) (parsSpaces env fuel) Pars.spaces ∧
+    SimPUpTo L pend (fun p r => r = ResultV.token p) (parsWord env fuel f) (Pars.word f) ∧
+    SimPUpTo L pend (fun p r => r = ResultV.token p) (parsLine env fuel) Pars.line ∧
+    SimPUpTo L pend (fun p r => r = ResultV.token p) (parsUntilFilter env fuel f) (Pars.untilFilter f) ∧
+    SimPUpTo L pend (fun p r => r = ResultV.token p) (parsUntilByte env fuel e) (Pars.untilFilter (· == e)) :=
+  ⟨fun g res h hb => spaces_sim env pend hf he g h fuel (Nat.lt_of_le_of_lt hb.le hfu) res,
+   fun g res h hb => word_sim env pend hf f g h fuel (Nat.lt_of_le_of_lt hb.le hfu) res,
+   fun g res h hb => line_sim env pend hf g h fuel (Nat.lt_of_le_of_lt hb.le hfu) res,
+   fun g res h hb => untilFilter_sim env pend hf f g h fuel (Nat.lt_of_le_of_lt hb.le hfu) res,
+   fun g res h hb => untilByte_sim env pend hf e g h fuel (Nat.lt_of_le_of_lt hb.le hfu) res⟩
+
+/-- … and the loop-free ones (`pars.Byte`) at every bound; the value relation may be weakened -/
+theorem byte_simUpTo (L : Nat) (env : Env ρ ε) (pend : ρ → Option ε → Bytes) (hf : FillOk env pend) (c : UInt8) :
+    SimPUpTo L pend (fun _ r => r = ResultV.token [c]) (parsByte env c) (ModParse.byte c) :=
+  fun g res h _ => byte_sim env pend hf c g h res
+
+/-- the value relation of a simulation may be weakened -/
+theorem SimPUpTo.mono {α : Type} {L : Nat} {pend : ρ → Option ε → Bytes} {val val' : α → ResultV → Prop}
+    {p : GoParser ρ ε} {m : Pars.P α} (h : SimPUpTo L pend val p m) (hv : ∀ a r, val a r → val' a r) :
+    SimPUpTo L pend val' p m := by
+  intro g res hi hb
+  have := h g res hi hb
+  revert this
+  generalize m.run' (absState pend g) = x
+  obtain ⟨o, s⟩ := x
+  cases o with
+  | ok a => exact fun ⟨g', r, h1, h2, h3, h4⟩ => ⟨g', r, h1, hv a r h2, h3, h4⟩
+  | error e => cases e <;> exact id
+
 /-- `parsePoint = pars.Parser(pars.Int).Map(…)` (location.go) = `LocParse.point`: `Int` under `Map`, for every mapping that
 turns the integer `n` into the value standing for `Point(n - 1)` and cannot fail -/
 theorem point_sim (env : Env ρ ε) (pend : ρ → Option ε → Bytes) (hf : FillOk env pend) (he : EnvOk env)
@@ -253,6 +522,63 @@ theorem point_sim (env : Env ρ ε) (pend : ρ → Option ε → Bytes) (hf : Fi
     exact int_sim env pend hf he g1 h1 fuel (by rw [hr]; exact hfu) res
   · intro a r hr; subst hr; exact hmap a
 end Comb
+
+/-- `SimP` IS FALSE OF A FUELLED PRIMITIVE (audit S5): `parsInt demoEnv 2` on `12345` leaves its loop after two rounds and answers
+`12`, the model's `Pars.int` answers `12345` — so no parser that contains `pars.Int` meets the hypotheses of `map_sim`, `dry_sim`,
+`maybe_sim`, `any_sim`; `SimPUpTo L` with `L < fuel` is the form that holds (`int_simUpTo`). -/
+theorem int_not_simP : ¬ SimP demoPend (fun n r => r = ResultV.int n) (parsInt demoEnv 2) Pars.int := by
+  intro h
+  have h1 := h (freshState [] [49, 50, 51, 52, 53]) .unset (fresh_inv _ _)
+  rw [fresh_abs] at h1
+  have hm : (Pars.int.run' ⟨[49, 50, 51, 52, 53] ++ demoPend [] none, []⟩).1.toOption = some 12345 := by decide
+  generalize Pars.int.run' ⟨[49, 50, 51, 52, 53] ++ demoPend [] none, []⟩ = x at h1 hm
+  obtain ⟨o, s⟩ := x
+  cases o with
+  | error e => cases hm
+  | ok a =>
+  have ha : a = 12345 := by injection hm
+  subst ha
+  obtain ⟨g', res, hr, hv, _, _⟩ := h1
+  have hg : (parsInt demoEnv 2 (freshState [] [49, 50, 51, 52, 53]) .unset).map (fun t => t.2.1) = some (.int 12) := by decide
+  rw [hr] at hg
+  dsimp only [Option.map] at hg
+  rw [hv] at hg
+  exact absurd hg (by decide)
+
+/-- THE REAL SHAPE (location.go: `ParseLocation = pars.Any(…, parsePoint, …)`, `parsePoint = pars.Parser(pars.Int).Map(…)`):
+`pars.Any(pars.Parser(pars.Int).Map(f), pars.Byte('^'))` — an `Int`-based point parser among the alternatives — simulates the
+model's `LocParse.anyOf [LocParse.point-as-mapP, byte]` up to every bound `L` below the loop fuel of `Int`, for every reader that
+meets `FillOk` / `EnvOk` and every mapping `f` that turns `n` into a value standing for `Point(n − 1)` and cannot fail.  (The other
+alternatives of `ParseLocation` — `parseRange`, `parseComplement`, `parseJoin`, `parseOrder`, `parseAmbiguous`, `parseBetween` — are
+built with `pars.Seq`, which has no regenerated bridge: they stay with the facts `pars_Seq`.) -/
+theorem any_int_point_simUpTo (L : Nat) (env : Env ρ ε) (pend : ρ → Option ε → Bytes) (hf : FillOk env pend) (he : EnvOk env)
+    (fuel : Nat) (hfu : L < fuel) (val' : Loc → ResultV → Prop) (f : ResultV → ResultV × Option ε)
+    (hmap : ∀ n, (f (ResultV.int n)).2 = none ∧ val' (.point (n - 1)) (f (ResultV.int n)).1)
+    (tok : Loc) (htok : ∀ r, r = ResultV.token [94] → val' tok r) :
+    SimPUpTo L pend val' (parsAny env [parsMap (parsInt env fuel) f, parsMap (parsByte env 94) (fun r => (r, none))])
+      (LocParse.anyOf [ModParse.mapP Pars.int (fun v => Loc.point (v - 1)), ModParse.mapP (ModParse.byte 94) (fun _ => tok)]) :=
+  any_simUpTo L env pend val' _ _
+    (.cons ⟨map_simUpTo L pend _ val' _ _ (int_simUpTo L env pend hf he fuel hfu) f _
+        (fun a r hr => by subst hr; exact hmap a), Pars.mapP_safe _ _ Pars.int_safe⟩
+      (.cons ⟨map_simUpTo L pend _ val' _ _ (byte_simUpTo L env pend hf 94) _ _
+          (fun _ r hr => ⟨rfl, htok r hr⟩), Pars.mapP_safe _ _ (Pars.byte_safe 94)⟩ .nil))
+
+/-- non-vacuity of `any_int_point_simUpTo` / `any_simUpTo`: the demo reader, loop fuel 10, bound 9; the fresh state over `12^`
+meets `Inv` and `Fr 9 [] 0`; the generated `Any` answers the integer 12 mapped (here: kept), `^` is next, nothing stays pushed;
+over `^12` the `Int` alternative fails, leaks nothing that stays, and the second alternative takes the `^` -/
+example : Inv (freshState (ρ := Bytes) (ε := Unit) [] [49, 50, 94]) ∧
+    Pars.Fr 9 [] 0 (absState demoPend (freshState (ρ := Bytes) (ε := Unit) [] [49, 50, 94])) ∧
+    (parsAny demoEnv [parsMap (parsInt demoEnv 10) (fun r => (r, none)), parsMap (parsByte demoEnv 94) (fun r => (r, none))]
+        (freshState [] [49, 50, 94]) .unset).map
+      (fun t => (t.2.1, t.2.2, (absState demoPend t.1).rest, (absState demoPend t.1).stk)) =
+      some (.int 12, none, [94], []) ∧
+    (parsAny demoEnv [parsMap (parsInt demoEnv 10) (fun r => (r, none)), parsMap (parsByte demoEnv 94) (fun r => (r, none))]
+        (freshState [] [94, 49, 50]) .unset).map
+      (fun t => (t.2.1, t.2.2, (absState demoPend t.1).rest, (absState demoPend t.1).stk)) =
+      some (.token [94], none, [49, 50], []) := by
+  refine ⟨fresh_inv _ _, ?_, by decide, by decide⟩
+  rw [fresh_abs]
+  exact ⟨⟨[], rfl, Nat.le_refl _, fun _ hf => nomatch hf⟩, by decide, trivial⟩
 
 /-- `pars.Any('^', '$')` on the demo reader: the alternatives are `Byte` parsers, each simulates `ModParse.byte` -/
 example : SimP demoPend (fun _ _ => True) (parsAny demoEnv [parsByte demoEnv 94, parsByte demoEnv 36])
